@@ -5,6 +5,7 @@ from __future__ import annotations
 import itertools as itt
 
 from .. import kernel, mon_dsep
+from ..gen import events as gev
 from ..gen import graphs as gg
 
 PROP = "C04"
@@ -13,7 +14,9 @@ RULE = (
     "(quick: plus a seeded 6% sample of the 34 752 ADMGs on 4 nodes; thorough: all of them) x all ordered pairs x "
     "all C; random ADMGs n=5..8 biased to bidirected chains whose inner nodes (or their descendants) are "
     "conditioned, each rebuilt with a second insertion order; plus the are_d_separated calls harvested while "
-    "IDC runs on random queries (realistic operands). Verdict compared with Bayes-ball m-separation on the "
+    "IDC runs on random queries (realistic operands); edit histories (query, edit the SAME graph object in place, query "
+    "again); parallel-worlds graphs of random events, whose nodes share base names (Y and Y @ -X), with same-base nodes "
+    "among the conditions. Verdict compared with Bayes-ball m-separation on the "
     "explicit latent DAG; symmetry by calling the real function with swapped arguments. non-trivial = C "
     "non-empty, graph has a bidirected edge, a and b connected in the skeleton; distinct by (graph, {a,b}, C)."
 )
@@ -71,6 +74,48 @@ def all_queries(ctx, gd):
             query(ctx, g, gd, a, b, list(C), gkey)
 
 
+def cf_graph_for(gd, ev):
+    from y0.algorithm.identify.cg import extract_interventions, make_parallel_worlds_graph
+
+    g = gg.to_nx(gd)
+    return make_parallel_worlds_graph(g, extract_interventions(gev.to_event(ev)))
+
+
+def cf_queries(ctx, gd, ev, rng, fixed=None):
+    from y0.algorithm.conditional_independencies import are_d_separated
+
+    try:
+        with kernel.quiet():
+            pw = cf_graph_for(gd, ev)
+    except Exception:  # noqa: BLE001
+        kernel.count("C04:parallel-worlds-graph-failed")
+        return
+    nodes = sorted(pw.nodes(), key=str)
+    if len(nodes) < 2:
+        return
+    todo = [fixed] if fixed else []
+    if not fixed:
+        for _ in range(6):
+            a, b = rng.sample(nodes, 2)
+            rest = [x for x in nodes if x not in (a, b)]
+            same = [x for x in rest if x.name in (a.name, b.name)]
+            C = set(rng.sample(rest, rng.randint(0, min(3, len(rest)))))
+            if same and rng.random() < 0.6:
+                C.add(rng.choice(same))
+            todo.append((str(a), str(b), sorted(map(str, C))))
+    byname = {str(n): n for n in nodes}
+    for a, b, C in todo:
+        kernel.LOG.reset_case({"graph": gd, "event": ev, "a": a, "b": b, "C": C, "cf": True})
+        try:
+            r = are_d_separated(pw, byname[a], byname[b], conditions={byname[c] for c in C})
+        except Exception as e:  # noqa: BLE001
+            kernel.violation(PROP, "total", f"are_d_separated raised {type(e).__name__}: {e} on a counterfactual graph",
+                             case=kernel.LOG.case)
+            continue
+        ctx.case(f"cf|{gg.key(gd)}|{gev.key(ev)}|{a}|{b}|{C}", bool(C), sample={"graph": gd, "event": gev.key(ev), "a": a, "b": b,
+                                                                                 "C": C, "separated": bool(r)})
+
+
 def run_shard(ctx):
     mon_dsep.install()
     rng = ctx.rng
@@ -114,6 +159,23 @@ def run_shard(ctx):
             if v1 != v2:
                 kernel.LOG.reset_case({"graph": gd, "graph2": gd2, "a": a, "b": b, "C": sorted(C)})
                 kernel.violation(PROP, "insertion-order", f"verdict {v1} vs {v2} for two insertion orders of one graph")
+    # edit histories: query a graph object, edit it in place, query the SAME object again
+    for _ in range(ctx.share({"quick": 300, "thorough": 6000}[ctx.tier])):
+        gd = gg.random_admg(rng, rng.randint(3, 6))
+        g = gg.to_nx(gd)
+        for _s in range(6):
+            for _q in range(3):
+                a, b = rng.sample(gd["nodes"], 2)
+                rest = [x for x in gd["nodes"] if x not in (a, b)]
+                query(ctx, g, gd, a, b, sorted(rng.sample(rest, rng.randint(0, len(rest)))), gg.key(gd) + "|hist")
+            gd = gg.edit_inplace(g, gd, rng)
+    # counterfactual-graph inputs (nodes that share a base name: Y and Y @ -X), as IDC* hands them over
+    for _ in range(ctx.share({"quick": 300, "thorough": 6000}[ctx.tier])):
+        gd = gg.random_admg(rng, rng.randint(2, 4))
+        ev, cls = gev.random_event(rng, gd)
+        if not ev or cls == "contradictory_pair":
+            continue
+        cf_queries(ctx, gd, ev, rng)
     # algorithm-driven slice: the separation queries IDC issues
     from y0.algorithm.identify import identify_outcomes
     from y0.dsl import Variable
@@ -150,6 +212,11 @@ def replay(case):
 
     gd = case["graph"]
     gd = {"nodes": gd["nodes"], "di": gd["di"], "bi": gd["bi"]}
+    if case.get("cf"):
+        import random
+
+        cf_queries(_C(), gd, case["event"], random.Random(0), fixed=(case["a"], case["b"], case["C"]))
+        return
     v1 = query(_C(), gg.to_nx(gd), gd, case["a"], case["b"], case["C"])
     if "graph2" in case:
         v2 = query(_C(), gg.to_nx(case["graph2"]), case["graph2"], case["a"], case["b"], case["C"])
